@@ -568,10 +568,19 @@ func CondsAt(b *ssa.BasicBlock) []struct {
 		for k, s := range id.Succs {
 			e := CondEdge{iff, id, s, k == 0}
 			if s == d && EdgeDominates(e, b) {
+				// `!x` taken false is `x` taken true: report the operand (rules compare conditions by value)
+				cv, val := iff.Cond, k == 0
+				for {
+					if u, ok := cv.(*ssa.UnOp); ok && u.Op == token.NOT {
+						cv, val = u.X, !val
+						continue
+					}
+					break
+				}
 				out = append(out, struct {
 					Cond ssa.Value
 					Val  bool
-				}{iff.Cond, k == 0})
+				}{cv, val})
 			}
 		}
 	}
@@ -1063,6 +1072,14 @@ func Unspill(v ssa.Value) ssa.Value {
 		}
 		al, ok := u.X.(*ssa.Alloc)
 		if !ok {
+			// a field of a local struct that is only ever accessed field-wise or copied as a whole: one store to that
+			// field, dominating the load, is the value loaded
+			if fa, isFA := u.X.(*ssa.FieldAddr); isFA {
+				if w, ok2 := localFieldStore(fa, u); ok2 {
+					v = w
+					continue
+				}
+			}
 			return v
 		}
 		vals, zero, ok := ReachingStores(al, u)
@@ -1072,6 +1089,53 @@ func Unspill(v ssa.Value) ssa.Value {
 		v = vals[0]
 	}
 	return v
+}
+
+func localFieldStore(fa *ssa.FieldAddr, load *ssa.UnOp) (ssa.Value, bool) {
+	al, ok := fa.X.(*ssa.Alloc)
+	if !ok || al.Referrers() == nil {
+		return nil, false
+	}
+	var stores []*ssa.Store
+	for _, r := range *al.Referrers() {
+		switch x := r.(type) {
+		case *ssa.FieldAddr:
+			if x.Referrers() == nil {
+				return nil, false
+			}
+			for _, r2 := range *x.Referrers() {
+				switch y := r2.(type) {
+				case *ssa.Store:
+					if y.Addr != ssa.Value(x) {
+						return nil, false // the field's address is stored somewhere
+					}
+					if x.Field == fa.Field {
+						stores = append(stores, y)
+					}
+				case *ssa.UnOp:
+					if y.Op != token.MUL {
+						return nil, false
+					}
+				case *ssa.DebugRef:
+				default:
+					return nil, false
+				}
+			}
+		case *ssa.UnOp:
+			if x.Op != token.MUL {
+				return nil, false
+			}
+		case *ssa.DebugRef:
+		case *ssa.Store:
+			return nil, false // whole-struct store (or the address escapes into memory)
+		default:
+			return nil, false
+		}
+	}
+	if len(stores) != 1 || stores[0].Parent() != load.Parent() || !InstrDominates(stores[0], load) {
+		return nil, false
+	}
+	return stores[0].Val, true
 }
 
 // DynValues resolves the concrete values an interface-typed (or any) value may hold, following
